@@ -166,7 +166,83 @@ func c09gen(rng *rand.Rand, thorough bool) (limit int, unit bool, lists [][]c09o
 	return
 }
 
+// runC09burst: many readers Get all the warm keys at once; when they have all returned, Puts of
+// new keys must evict the cold keys, oldest first (BurstTrace.tla).
+func runC09burst(c *Ctx) {
+	procs := []int{4, 8, 2, 16}
+	nh := c.Pick(1500, 20000)
+	for i := 0; i < nh; i++ {
+		rng := c.Rng("c09-burst", i)
+		runtime.GOMAXPROCS(procs[i%len(procs)])
+		nCold, nWarm := 1+rng.Intn(3), 16+rng.Intn(48)
+		readers := 2 + rng.Intn(4)
+		limit := nCold + nWarm
+		h := c.NewHist("burst")
+		var evs [][3]int
+		var mu sync.Mutex
+		cc := cache.New(int64(limit), cache.LRU[int, cv]().OnEvict(func(k int, v cv) {
+			mu.Lock()
+			evs = append(evs, [3]int{k, v.Tag, v.Size})
+			mu.Unlock()
+		}))
+		take := func() [][3]int {
+			mu.Lock()
+			defer mu.Unlock()
+			out := evs
+			evs = nil
+			if out == nil {
+				out = [][3]int{}
+			}
+			return out
+		}
+		fill := make([]int, 0, limit)
+		for k := 1; k <= limit; k++ { // keys 1..nCold stay cold
+			cc.Put(k, cv{k, 1})
+			fill = append(fill, k)
+		}
+		h.Emit(Ev{"op": "new", "limit": limit, "fill": fill, "len": cc.Len(), "size": int(cc.Size()), "evs": take(), "procs": procs[i%len(procs)], "readers": readers})
+		warm := fill[nCold:]
+		var miss atomic.Int64
+		var wg sync.WaitGroup
+		start := make(chan struct{})
+		for g := 0; g < readers; g++ {
+			wg.Add(1)
+			go func(g int) {
+				defer wg.Done()
+				defer func() {
+					if recover() != nil {
+						miss.Add(1000000)
+					}
+				}()
+				<-start
+				for j := range warm {
+					k := warm[(j+g*len(warm)/readers)%len(warm)]
+					if v, ok := cc.Get(k); !ok || v.Tag != k || v.Size != 1 {
+						miss.Add(1)
+					}
+				}
+			}(g)
+		}
+		close(start)
+		wg.Wait()
+		h.Emit(Ev{"op": "burst", "keys": warm, "miss": int(miss.Load()), "len": cc.Len(), "size": int(cc.Size()), "evs": take()})
+		for j := 0; j < nCold; j++ {
+			k := 1000 + j
+			ev := Ev{"op": "put", "k": k, "res": false, "len": 0, "size": 0, "evs": [][3]int{}}
+			guard(ev, func() {
+				ev["res"] = cc.Put(k, cv{k, 1})
+				ev["len"], ev["size"], ev["evs"] = cc.Len(), int(cc.Size()), take()
+			})
+			h.Emit(ev)
+		}
+	}
+}
+
 func runC09(c *Ctx) {
+	if k, _ := c.Extra["kind"].(string); k == "burst" {
+		runC09burst(c)
+		return
+	}
 	nh := c.Pick(640, 24000)
 	procs := []int{1, 2, 4, 8}
 	for i := 0; i < nh; i++ {
